@@ -1,9 +1,30 @@
 /-
   C11 — first-match alternation and rule exclusion behave as documented.
   ONLY property theorems.
+  `ends_are_reference` (P1, proved in Abnf/RefAgree.lean): `ends_lib = [[r]]_{G,flags,excl}(s,i)` where the right-hand side
+  is the reference SET semantics `refEnds` (Abnf/RefSem.lean: no trees, no match order, no breadth-first bookkeeping, no
+  caches; first-match = "the first alternative whose set is non-empty", exclusion = "the span's text is not, in its
+  entirety, in the excluded rule's set") - for every grammar with min ≤ max, every assignment of flags and exclusion pairs,
+  every source, offset and fuel for which the engine answers.  The theorems below state the same clause by clause.
 -/
 import Abnf.FlagLemmas
+import Abnf.RefAgree
 namespace Abnf.C11
+
+/-- **The engine computes the reference semantics**, first-match flags and exclusions included. -/
+theorem ends_are_reference (G : Grammar) (hG : GBoundsOk G) (f : Nat) (s : Src) (r i : Nat) :
+    (∀ ms, lparse G f s (.ref r) i = .ok ms →
+      ∃ js, refEnds G f s (.ref r) i = .ok js ∧ js.Pairwise (· < ·) ∧ ∀ j, j ∈ js ↔ j ∈ stops ms) ∧
+    (lparse G f s (.ref r) i = .fail → refEnds G f s (.ref r) i = .ok []) := by
+  have h := lparse_agree G hG f s (.ref r) i BoundsOk.ref
+  constructor
+  · intro ms hms
+    rw [hms] at h
+    obtain ⟨_, js, h1, h2, h3⟩ := h
+    exact ⟨js, h1, h2, h3⟩
+  · intro hf
+    rw [hf] at h
+    exact h
 
 /-- `Rule.first_match_alternation = b`: writes the flag of the rule's top-level alternation only
 (a definition that is not an alternation is left alone) -/
